@@ -468,4 +468,4 @@ LEVEL_TEXT = (
 LEVEL_NOTE = (
     "Trusted: writer model and EO codec model (sim/models), Python's cp1252 codec. Integers >= 0 and str strings only."
 )
-TECHNIQUE = "deterministic seeded history simulation with refused writes as injected failures, vs. reference model"
+TECHNIQUE = "deterministic seeded history simulation with refused writes as injected failures, vs. reference model; two caller threads under a seeded line-level scheduler"
